@@ -1,4 +1,5 @@
 import PdtVerif.Lemmas.PadChunk
+import PdtVerif.Lemmas.PadChunkTensor
 /-!
 # C09 — variable-length padding and chunking equal per-sequence pad-and-slice
 
@@ -163,6 +164,66 @@ theorem C09_masked_count (T : Nat) (r : MaskRow α) (h : r.Wf T) :
 
 example : padMaskedCore (-1 : Int) 4 [⟨[0, 3, 6, 9], [true, false, true, true]⟩, ⟨[1, 2, 4, 5], [false, false, false, true]⟩]
     = .ok ([[0, 6, 9, -1], [5, -1, -1, -1]], [3, 1]) := by decide
+
+/-! ### pad_masked_sequence on whole tensors: both layouts, broadcastable masks -/
+
+/-- **C09_masked_batch_first**: the tensor-level entry with `batch_first=True` on an `(N, T, ·)` input and
+an `(N, T)` mask: row `n` of the output is the compaction of row `n`, then the pad value up to `T`;
+`lens[n]` is the count. (`C09_masked` through the shape handling of the entry point.) -/
+theorem C09_masked_batch_first (value dflt : α) (N T : Nat) (x : List (List α)) (mask : List (List Bool))
+    (hx : ∀ r ∈ x, r.length = T) (hm : ∀ r ∈ mask, r.length = T) :
+    padMaskedSequence true value N T x N T mask dflt
+      = .ok (List.zipWith (fun xs m => compact m xs ++ List.replicate (T - (compact m xs).length) value) x mask,
+             List.zipWith (fun xs m => (compact m xs).length) x mask) :=
+  padMaskedSequence_batchFirst value dflt N T x mask hx hm
+
+/-- **C09_masked_seq_first**: the default layout, `x` of shape `(T, N, ·)` and `mask` of shape `(T, N)`
+(`batch_first=False`). Sequence `n` is COLUMN `n`. The call succeeds; `lens[n]` is the number of
+selected elements of column `n`; and reading the output at `[t][n]` gives element `t` of "the selected
+elements of column `n` in order, followed by the pad value" — the documentation's
+`x_[j, n] = x[i, n]` for the `j`-th true cell `i`, pad value below. Proved by composing the batch-first
+theorem with two transpositions (`padMaskedSequence_seqFirst`). -/
+theorem C09_masked_seq_first (value dflt : α) (T N : Nat) (x : List (List α)) (mask : List (List Bool))
+    (hx : x.length = T) (hm : mask.length = T) :
+    ∃ out lens, padMaskedSequence false value T N x T N mask dflt = .ok (out, lens) ∧
+      out.length = T ∧ lens.length = N ∧
+      ∀ (n : Nat), n < N →
+        lens[n]? = some (compact (col mask n false) (col x n dflt)).length
+        ∧ (compact (col mask n false) (col x n dflt)
+            ++ List.replicate (T - (compact (col mask n false) (col x n dflt)).length) value).length = T
+        ∧ ∀ (t : Nat), t < T →
+            (out[t]?).bind (fun row => row[n]?)
+              = (compact (col mask n false) (col x n dflt)
+                  ++ List.replicate (T - (compact (col mask n false) (col x n dflt)).length) value)[t]? := by
+  refine ⟨_, _, padMaskedSequence_seqFirst value dflt T N x mask hx hm, by simp, by simp, ?_⟩
+  intro n hn
+  have hlen := maskedRowOut_length value T (col x n dflt) (col mask n false) (by simp [hm]) (by simp [hx])
+  refine ⟨by simp [hn], hlen, ?_⟩
+  intro t ht
+  have hlen' : t < (maskedRowOut value T (col x n dflt) (col mask n false)).length := by omega
+  simp only [transpose, col, List.getElem?_map, List.getElem?_range ht, Option.map_some, Option.bind_some,
+    List.getElem?_range hn]
+  simp only [maskedRowOut, col] at hlen' ⊢
+  rw [List.getD_eq_getElem?_getD, List.getElem?_eq_getElem hlen']
+  rfl
+
+-- T = 3 time steps, N = 2 sequences; column 0 = [1, 3, 5] keeps [1, 5], column 1 = [2, 4, 6] keeps [4]
+example : padMaskedSequence false (-1 : Int) 3 2 [[1, 2], [3, 4], [5, 6]] 3 2
+    [[true, false], [false, true], [true, false]] 0 = .ok ([[1, 4], [5, -1], [-1, -1]], [2, 1]) := by decide
+
+/-- **C09_masked_broadcast**: a mask given in a broadcastable shape (`(N, 1)`, `(1, T)`, `(1, 1)`:
+"broadcasts with the first two dimensions of `x`") gives exactly what its expansion gives. (The code
+before `fixes/C09-masked-broadcast-mask.diff` counted the lengths on the unexpanded mask.) -/
+theorem C09_masked_broadcast (value dflt : α) (N T m0 m1 : Nat) (x : List (List α))
+    (mask full : List (List Bool)) (h : expand2 N T m0 m1 mask = .ok full) :
+    padMaskedSequence true value N T x m0 m1 mask dflt
+      = padMaskedSequence true value N T x N T full dflt :=
+  padMaskedSequence_broadcast value dflt N T m0 m1 x mask full h
+
+-- a (2, 1) mask on a (2, 3) input: row 0 is kept whole, row 1 is dropped whole
+example : expand2 2 3 2 1 [[true], [false]] = .ok [[true, true, true], [false, false, false]]
+    ∧ padMaskedSequence true (-1 : Int) 2 3 [[1, 2, 3], [4, 5, 6]] 2 1 [[true], [false]] 0
+      = .ok ([[1, 2, 3], [-1, -1, -1]], [3, 0]) := by decide
 
 /-! ## chunk_by_slices (constant and replicate) -/
 
@@ -353,5 +414,223 @@ example : ∀ s ∈ [(⟨[1, 2, 3, 4], 4, 3/4, 1/2⟩ : ShiftRow Int)], (s.toPad
   simp at hs
   subst hs
   simp [PadRow.Legal, ShiftRow.toPad, legalPad]
+
+/-! ### random_shift under floating-point rounding -/
+
+/-- **C09_shift_amount_rounded**: the code computes `trunc (rnd (rnd (prop * len) * u))`. For ANY rounding
+`rnd` that is monotone, exact on natural numbers and never rounds `a * u` (`u < 1` representable) back up
+to `a` (`Rounding`; IEEE round-to-nearest has the three), and `prop` a number of the working precision,
+the added amount is `≤ prop * len` — and `< prop * len`, the documented EXCLUSIVE bound, as soon as
+`rnd (prop * len) > 0`. This is the repaired code (double precision, `prop` is a double). The code before
+`fixes/C09-random-shift-float32-bound.diff` multiplied `rnd32 prop` instead of `prop`, which is why it
+could exceed `prop * len` (next theorem). `Rounding rnd` is a hypothesis, not proved of a concrete
+floating-point format. -/
+theorem C09_shift_amount_rounded (rnd : Rat → Rat) (h : Rounding rnd) (p : Rat) (len : Nat) (u : Rat)
+    (hp : 0 ≤ p) (hu0 : 0 ≤ u) (hu1 : u < 1) (hu : rnd u = u) :
+    ((shiftAmountR rnd p len u : Nat) : Rat) ≤ p * (len : Rat)
+      ∧ (0 < rnd (p * (len : Rat)) → ((shiftAmountR rnd p len u : Nat) : Rat) < p * (len : Rat)) :=
+  shiftAmountR_le rnd h p len u hp hu0 hu1 hu
+
+/-- **C09_shift_float32_counterexample**: the code before `fixes/C09-random-shift-float32-bound.diff`, as the
+float32 model `shiftAmountF32` (round-to-nearest-even to 24 bits, `prop` rounded first). `prop = 1/7` is
+the double `0.14285714285714285` (just below 1/7), `len = 21`, the draw is the largest float32 below 1:
+three elements are added although `prop * len < 3`. The double-precision model of the repaired code
+adds two, like exact arithmetic. The witness was replayed on the library (`corpus/C09/14`). -/
+theorem C09_shift_float32_counterexample :
+    shiftAmountF32 (2573485501354569 / 18014398509481984) 21 (16777215 / 16777216) = 3
+    ∧ (2573485501354569 / 18014398509481984 : Rat) * 21 < 3
+    ∧ shiftAmountF64 (2573485501354569 / 18014398509481984) 21 (16777215 / 16777216) = 2
+    ∧ shiftAmount (2573485501354569 / 18014398509481984) 21 (16777215 / 16777216) = 2 := by
+  decide +kernel
+
+-- the hypothesis is satisfiable: exact arithmetic is a rounding, and then shiftAmountR is shiftAmount
+example : Rounding (fun q : Rat => q) := rounding_id
+example (p : Rat) (len : Nat) (u : Rat) : shiftAmountR (fun q => q) p len u = shiftAmount p len u := rfl
+
+/-! ## shapes: every entry point accepts exactly the documented shapes -/
+
+/-- **C09_shapes_pad**: `pad_variable` accepts `x : (N, T, *)`, `lens : (N,)`, `pad : (2, N)` and nothing else;
+every refusal is a ValueError. -/
+theorem C09_shapes_pad (x lens pad : Shape) :
+    (padVariableShapes x lens pad = .ok () ↔ ∃ N T rest, x = N :: T :: rest ∧ lens = [N] ∧ pad = [2, N])
+    ∧ (∀ e, padVariableShapes x lens pad = .error e → e = .value) := by
+  unfold padVariableShapes
+  constructor
+  · constructor
+    · intro h
+      split at h
+      · rename_i N T rest
+        split at h
+        · simp at h
+        · split at h
+          · simp at h
+          · exact ⟨N, _, _, rfl, by simp_all, by simp_all⟩
+      · simp at h
+    · rintro ⟨N, T, rest, rfl, rfl, rfl⟩
+      simp
+  · intro e h
+    repeat' split at h
+    all_goals simp_all
+
+/-- **C09_shapes_chunk**: `chunk_by_slices` accepts `x : (N, T, *)` with `lens` absent or of shape `(N,)`
+(and anything for `lens` where it returns early: empty batch, or empty time dimension in a non-constant
+mode); every refusal is a RuntimeError. -/
+theorem C09_shapes_chunk (mode : Mode) (x : Shape) (lens : Option Shape) :
+    (chunkBySlicesShapes mode x lens = .ok () ↔
+      ∃ N T rest, x = N :: T :: rest ∧
+        (N = 0 ∨ (T = 0 ∧ mode ≠ .constant) ∨ lens = none ∨ lens = some [N]))
+    ∧ (∀ e, chunkBySlicesShapes mode x lens = .error e → e = .runtime) := by
+  unfold chunkBySlicesShapes
+  constructor
+  · constructor
+    · intro h
+      split at h
+      · rename_i N T rest
+        refine ⟨N, T, rest, rfl, ?_⟩
+        split at h
+        · rename_i h'
+          rcases h' with h' | h'
+          · exact Or.inl h'
+          · exact Or.inr (Or.inl h')
+        · split at h
+          · exact Or.inr (Or.inr (Or.inl rfl))
+          · split at h
+            · simp at h
+            · rename_i l hl
+              exact Or.inr (Or.inr (Or.inr (by simp_all)))
+      · simp at h
+    · rintro ⟨N, T, rest, rfl, h⟩
+      simp only []
+      split
+      · rfl
+      · rename_i h'
+        rcases h with h | h | h | h
+        · exact absurd (Or.inl h) h'
+        · exact absurd (Or.inr h) h'
+        · subst h; rfl
+        · subst h; simp
+  · intro e h
+    repeat' split at h
+    all_goals simp_all
+
+/-- **C09_shapes_masked**: `pad_masked_sequence` accepts `x` with at least two dimensions `(d0, d1, *)` and
+a two-dimensional mask each of whose sizes equals the corresponding one of `x` or is 1; every refusal
+is a RuntimeError. -/
+theorem C09_shapes_masked (x mask : Shape) :
+    (padMaskedShapes x mask = .ok () ↔
+      ∃ d0 d1 rest m0 m1, x = d0 :: d1 :: rest ∧ mask = [m0, m1] ∧ (m0 = d0 ∨ m0 = 1) ∧ (m1 = d1 ∨ m1 = 1))
+    ∧ (∀ e, padMaskedShapes x mask = .error e → e = .runtime) := by
+  unfold padMaskedShapes
+  constructor
+  · constructor
+    · intro h
+      split at h
+      · rename_i d0 d1 rest m0 m1
+        split at h
+        · rename_i h'
+          exact ⟨d0, d1, rest, m0, m1, rfl, rfl, h'.1, h'.2⟩
+        · simp at h
+      · simp at h
+    · rintro ⟨d0, d1, rest, m0, m1, rfl, rfl, h0, h1⟩
+      simp [h0, h1]
+  · intro e h
+    repeat' split at h
+    all_goals simp_all
+
+/-- **C09_shapes_shift**: `random_shift` accepts `input : (N, T, *)` with `in_lens : (N,)` and nothing else,
+in training and evaluation mode alike; every refusal is a RuntimeError. -/
+theorem C09_shapes_shift (x lens : Shape) :
+    (randomShiftShapes x lens = .ok () ↔ ∃ N T rest, x = N :: T :: rest ∧ lens = [N])
+    ∧ (∀ e, randomShiftShapes x lens = .error e → e = .runtime) := by
+  unfold randomShiftShapes
+  constructor
+  · constructor
+    · intro h
+      split at h
+      · rename_i N T rest
+        split at h
+        · simp at h
+        · exact ⟨N, T, rest, rfl, by simp_all⟩
+      · simp at h
+    · rintro ⟨N, T, rest, rfl, rfl⟩
+      simp
+  · intro e h
+    repeat' split at h
+    all_goals simp_all
+
+example : padVariableShapes [2, 5, 3] [2] [2, 2] = .ok () ∧ padVariableShapes [2, 5, 3] [2, 1] [2, 2] = .error .value
+    ∧ chunkBySlicesShapes .reflect [2, 5] (some [3]) = .error .runtime
+    ∧ padMaskedShapes [4, 3, 2] [1, 3] = .ok () ∧ padMaskedShapes [4, 3, 2] [2, 3] = .error .runtime
+    ∧ randomShiftShapes [3] [3] = .error .runtime := by decide
+
+/-- **C09_pad_tensor**: `pad_variable` on whole tensors — parallel `x`, `lens`, `pad[0]`, `pad[1]` of the
+documented shapes, legal for the mode — in the property's wording, indexed by the batch index `n`. -/
+theorem C09_pad_tensor (mode : Mode) (value : α) (T : Nat) (x : List (List α)) (lens pad0 pad1 : List Nat)
+    (hne : x ≠ []) (hl : lens.length = x.length) (h0 : pad0.length = x.length) (h1 : pad1.length = x.length)
+    (hleg : ∀ (n : Nat) (hn : n < x.length), (x[n]).length = T ∧ lens[n] ≤ T
+      ∧ legalPad mode lens[n] pad0[n] pad1[n] = true) :
+    ∃ out, padVariableT false mode value T x lens pad0 pad1 = .ok out ∧ out.length = x.length ∧
+      ∀ (n : Nat) (hn : n < x.length) (ho : n < out.length),
+        (out[n]).take (lens[n] + (pad0[n] + pad1[n]))
+          = padSeq mode value pad0[n] pad1[n] ((x[n]).take lens[n]) := by
+  rw [padVariableT_ok false mode value T x lens pad0 pad1 hl h0 h1]
+  have hlen := zipRows_length x lens pad0 pad1 hl h0 h1
+  generalize hR : List.zipWith (fun (xl : List α × Nat) (p : Nat × Nat) => (⟨xl.1, xl.2, p.1, p.2⟩ : PadRow α))
+      (x.zip lens) (pad0.zip pad1) = rows at hlen
+  have hget : ∀ (n : Nat) (hn : n < rows.length) (hx : n < x.length) (hl' : n < lens.length)
+      (h0' : n < pad0.length) (h1' : n < pad1.length), rows[n] = ⟨x[n], lens[n], pad0[n], pad1[n]⟩ := by
+    intro n hn hx hl' h0' h1'
+    subst hR
+    exact zipRows_getElem x lens pad0 pad1 n hn hx hl' h0' h1'
+  have hrne : rows ≠ [] := by
+    intro hnil
+    rw [hnil] at hlen
+    exact hne (List.length_eq_zero_iff.1 hlen.symm)
+  have hrleg : ∀ p ∈ rows, p.Legal mode T := by
+    intro p hp
+    obtain ⟨n, hn, rfl⟩ := List.getElem_of_mem hp
+    have hn' : n < x.length := hlen ▸ hn
+    rw [hget n hn hn' (by omega) (by omega) (by omega)]
+    exact hleg n hn'
+  obtain ⟨out, hout, holen, hrows⟩ := C09_pad_rows mode value T rows hrne hrleg
+  refine ⟨out, hout, by omega, ?_⟩
+  intro n hn ho
+  have hn' : n < rows.length := by omega
+  have := (hrows n hn' ho).1
+  rw [hget n hn' hn (by omega) (by omega) (by omega)] at this
+  exact this
+
+/-- **C09_pad_tensor_refuses**: any other combination of shapes is a ValueError. -/
+theorem C09_pad_tensor_refuses (pinned : Bool) (mode : Mode) (value : α) (T : Nat) (x : List (List α))
+    (lens pad0 pad1 : List Nat) (padOuter : Nat)
+    (h : ¬ (lens.length = x.length ∧ padOuter = 2 ∧ pad0.length = x.length ∧ pad1.length = x.length)) :
+    padVariableT pinned mode value T x lens pad0 pad1 padOuter = .error .value :=
+  padVariableT_value pinned mode value T x lens pad0 pad1 padOuter h
+
+/-- **C09_chunk_tensor**: `chunk_by_slices` on whole tensors with `lens` absent (every sequence has length
+`T`) or of shape `(N,)` is the row-level function of `C09_chunk` / `C09_chunk_reflect` on the zipped
+rows; a `lens` of any other shape is a RuntimeError. -/
+theorem C09_chunk_tensor (mode : Mode) (value : α) (T : Nat) (x : List (List α))
+    (slices : List (Int × Int)) (lens : Option (List Nat)) (hne : x ≠ [])
+    (hT : T ≠ 0 ∨ mode = .constant) :
+    (∀ l, lens = some l → l.length ≠ x.length →
+      chunkBySlicesT false mode value T x slices lens = .error .runtime)
+    ∧ ((∀ l, lens = some l → l.length = x.length) →
+      chunkBySlicesT false mode value T x slices lens
+        = chunkBySlices false mode value T
+            (List.zipWith (fun (xl : List α × Nat) (s : Int × Int) => ⟨xl.1, xl.2, s.1, s.2⟩)
+              (x.zip (lens.getD (x.map (fun _ => T)))) slices)) := by
+  have hT' : ¬ (T = 0 ∧ (false = true ∨ mode ≠ .constant)) := by
+    rintro ⟨h0, h | h⟩
+    · cases h
+    · rcases hT with hT | hT
+      · exact hT h0
+      · exact h hT
+  constructor
+  · intro l hl hlen
+    subst hl
+    exact chunkBySlicesT_lens_shape false mode value T x slices l hne hT' hlen
+  · intro hl
+    exact chunkBySlicesT_ok false mode value T x slices lens hne hT' hl
 
 end PdtVerif.PadChunk
